@@ -2,6 +2,7 @@ import TucanProofs.Lemmas.RejectKind
 import TucanProofs.Lemmas.Sentence
 import TucanProofs.Lemmas.ParserDenotation
 import TucanProofs.Lemmas.AcceptIff
+import TucanProofs.Lemmas.AstDenotation
 import TucanProofs.Lemmas.TablesPin
 import TucanProofs.Lemmas.MoreExamples
 /-!
@@ -51,7 +52,33 @@ theorem C10_valid_spelled_out (ast : Ast) : ast.Valid ↔
     (∀ b ∈ ast.attrs, litVal b.1 ≤ ast.atomCount) ∧ ast.settings.Nodup :=
   ⟨fun h => ⟨h.lits, h.tuples, h.attrIdx, h.once⟩, fun ⟨a, b, c, d⟩ => ⟨a, b, c, d⟩⟩
 
-/-- **The returned graph is the denoted graph.**  For every listener state an accepted string gives rise
+/-- **The returned graph, read off the syntax tree.**  For an accepted string with tree `ast` the parser returns
+the graph whose atoms are `0 … n-1`, `n` the number of atoms the formula states; atom `i` is the `i`-th symbol of
+the formula's expansion (every symbol repeated as often as its count says) arranged by non-decreasing atomic
+number; atoms `i`, `j` are bonded exactly when some tuple of the tree names `i+1` and `j+1`, either way round;
+atom `i` has isotope mass (radical) `v` exactly when some attribute block of the tree sets `mass=v` (`rad=v`) on
+index `i+1`; and no atom has a charge or coordinates.  No listener state, no helper of the reader is mentioned:
+`expansion`, `valuedSettings` and `litVal` are plain functions of the tree. -/
+theorem C10_denotes (s : Str) (g : Graph) (h : graphFromTucan s = .ok g) :
+    ∃ toks ast, lex s = some toks ∧ Sentence toks ast ∧ ast.Valid ∧
+      g.labels = List.range ast.atomCount ∧ g.WF ∧ g.Simple ∧
+      (∃ syms : List Str, syms.Perm ast.expansion ∧
+        syms.Pairwise (fun a b => (elementZ a).getD 0 ≤ (elementZ b).getD 0) ∧
+        ∀ i (hi : i < syms.length), ∃ x z, g.attrs? i = some x ∧ x.sym = some syms[i] ∧
+          elementZ syms[i] = some z ∧ x.z = some (z : Int)) ∧
+      (∀ i j : Nat, g.Adj i j ↔
+        ∃ p ∈ ast.tuples, (litVal p.1 = i + 1 ∧ litVal p.2 = j + 1) ∨ (litVal p.1 = j + 1 ∧ litVal p.2 = i + 1)) ∧
+      (∀ (i : Nat) (x : Atom), g.attrs? i = some x →
+        (∀ v : Int, x.mass = some v ↔ ∃ w : Nat, (w : Int) = v ∧ (i + 1, "mass".toList, w) ∈ ast.valuedSettings) ∧
+        (∀ v : Int, x.rad = some v ↔ ∃ w : Nat, (w : Int) = v ∧ (i + 1, "rad".toList, w) ∈ ast.valuedSettings) ∧
+        x.chg = none ∧ x.x = none ∧ x.y = none ∧ x.zc = none) :=
+  graphFromTucan_denotes s g h
+
+/-- the expansion has as many symbols as the formula states atoms -/
+theorem C10_expansion_length (ast : Ast) : ast.expansion.length = ast.atomCount := ast.expansion_length
+
+/-- **The returned graph is the denoted graph**, at the level of listener states (the step `C10_denotes` composes
+with the three listeners).  For every listener state an accepted string gives rise
 to (`GoodState`: atoms of the formula, bonds between different existing atoms in any order / orientation /
 multiplicity, attribute records on existing atoms), `to_graph` returns the graph with exactly the atoms of
 the formula numbered `0 … n-1` by increasing atomic number (stable sort of the formula's expansion),
@@ -93,6 +120,10 @@ example :
     (parseTucan [.lit ['C'], .lit ['2'], .lit ['/'], .lit ['('], .lit ['1'], .lit ['-'], .lit ['2'], .lit [')']]).isSome = true ∧
     parseTucan [.lit ['C'], .lit ['/'], .lit ['('], .lit ['1'], .lit ['-'], .lit ['2']] = none := by
   refine ⟨?_, ?_, ?_⟩ <;> decide +kernel
+
+/-- non-vacuity of `C10_denotes`: the tree of `CH2O/…` states the atoms C, H, H, O -/
+example : MoreExamples.astA.expansion = [['C'], ['H'], ['H'], ['O']] ∧ MoreExamples.astA.atomCount = 4 := by
+  constructor <;> decide +kernel
 
 /-- non-vacuity of `C10_accepts_iff`: the tree of `CH2O/(1-3)(2-3)(3-4)/(3:mass=13,rad=2)` is valid -/
 example : MoreExamples.astA.Valid := MoreExamples.astA_valid
